@@ -5,7 +5,7 @@ design  : Bloch.tla defines "forbidden by the centering" through the integer lat
           condition == (L(h) # 0) on the cube |h| <= N for all six centerings, closure of allowed reflections under differences, and
           injectivity of the raveled key (the code before the fix raises for A / B / C: counterexample cen = "A")
 inputs  : get_reflection_condition on the cube |h| <= 3 for every centering; StructureFactor for 10 crystals (F, I, P, A, B, C centred,
-          orthohexagonal hcp, two-element) x thermal sigma x partial occupancy x g_max x lazy, enumerated by TLC
+          orthohexagonal hcp, two-element) plus two primitive crystals with one species on a centred sub-lattice) x thermal sigma x partial occupancy x g_max x lazy x default / few-kB dask chunk-size, enumerated by TLC
 verdict : BlochTrace: observed condition = lattice sum; F(-h) = conj F(h); reflections with L(h) = 0 have no structure factor and are
           not tabulated with the crystal's centering (and all others are); lattice translation leaves F unchanged; potential real
 """
@@ -29,9 +29,9 @@ def tags_for(ev, clauses):
 def self_test(ctx: Ctx):
     r = {"k": "refl", "centering": "I", "hkl": [[1, 0, 0], [1, 1, 0], [-1, 2, 1]], "allowed": [False, True, True], "raised": False}
     s = {"k": "sf", "centering": "C", "raised": False, "friedel_ppb": 10, "mag": [[1, 0, 0, 3], [1, 1, 0, 700000000], [0, 0, 1, 900000000], [0, 1, 0, 12]],
-         "tabulated": [[1, 1, 0], [0, 0, 1]], "translation_ppb": 5, "imag_ppb": 0, "lazy_ppb": 0}
+         "tabulated": [[1, 1, 0], [0, 0, 1]], "translation_ppb": 5, "imag_ppb": 0, "lazy_ppb": 0, "auto_dropped_nonzero": 0}
     bads = [dict(r, allowed=[True, True, True]), dict(r, raised=True), dict(s, mag=[[1, 0, 0, 10 ** 7]] + s["mag"][1:]), dict(s, tabulated=[[1, 1, 0], [0, 0, 1], [1, 0, 0]]),
-            dict(s, tabulated=[[1, 1, 0]]), dict(s, friedel_ppb=10 ** 6), dict(s, translation_ppb=10 ** 6), dict(s, imag_ppb=10 ** 6)]
+            dict(s, tabulated=[[1, 1, 0]]), dict(s, friedel_ppb=10 ** 6), dict(s, translation_ppb=10 ** 6), dict(s, imag_ppb=10 ** 6), dict(s, auto_dropped_nonzero=3)]
     res = ctx.validate("BlochTrace", [[r], [s]] + [[b] for b in bads], "BlochTrace.cfg")
     if not all(x[0] for x in res[:2]) or any(x[0] for x in res[2:]):
         raise Machinery(f"BlochTrace (C27) self-test failed: {res}")
@@ -41,7 +41,7 @@ def self_test(ctx: Ctx):
 def run(ctx: Ctx):
     quick = ctx.tier == "quick"
     ctx.rule = ("reflection condition on the cube |h| <= 3 for P, I, F, A, B, C; structure-factor scenarios = crystal (Si, Cu, NaCl: F; Fe: I; "
-                "Po, CsCl: P; orthorhombic A, B, C centred; orthohexagonal Mg: C) x thermal sigma x partial occupancy x g_max x lazy, "
+                "Po, CsCl: P; orthorhombic A, B, C centred; orthohexagonal Mg: C) plus two primitive crystals with one species on a centred sub-lattice) x thermal sigma x partial occupancy x g_max x lazy x default / few-kB dask chunk-size, "
                 "enumerated by TLC; non-trivial = centred cells (some reflection forbidden)")
     ctx.design_check("BlochImpl", cfg_text=bloch.IMPL_CFG.format(n=1 if quick else 2), label="BlochImpl=>Bloch!Allowed", timeout=3000)
     r = ctx.design_check("Bloch", "Bloch.cfg", label="scenario space", workers=1)
@@ -57,10 +57,11 @@ def run(ctx: Ctx):
         ctx.case(("refl", cen), nontrivial=cen != "P")
     if quick:
         seen, pick = set(), []
-        for c in cases:                      # one scenario per crystal first, then more
-            if c["crystal"] not in seen:
-                seen.add(c["crystal"]); pick.append(c)
-        cases = pick + [c for c in cases if c not in pick][:10]
+        for c in cases:                      # one scenario per crystal and per (crystal, small_chunks, lazy) first, then more
+            ks = [("x", c["crystal"]), ("s", c["crystal"], c["small_chunks"]), ("l", c["small_chunks"], c["lazy"], c["g_max"])]
+            if any(k not in seen for k in ks):
+                seen.update(ks); pick.append(c)
+        cases = pick + [c for c in cases if c not in pick][:6]
     else:
         ctx.exhaustive = True
     for c in cases:
